@@ -12,6 +12,8 @@
 //   F cur ck                         restoreFromPath's file plan on crafted directories (mem engine)
 //   TB keepA keepB hA hB             begin of a value-level trace on two stores (h = observed value id)
 //   TO W s h | B s t i h | G s dg h | R s t i | Y s t i | S s i | O s t i | X s | Z s h    one op of the trace
+//   (TO F s t i = store s runs kvStoreSM.PrepareSnapshot(t,i): asks the other store, reuses, copies)
+//   E eng r1 r2                      fetch scenario with a lineage reset at the source (sst numbers reused)
 //   K at                             K1 probe (writes racing with the checkpoint copy)
 // Value ids (h) and checkpoint digests (dg) are OBSERVATIONS of the implementation handed to the
 // model, which is parametric in what a write does. They appear on the ops that may legitimately
@@ -44,6 +46,7 @@ var (
 	nPlan   = flag.Int("nplan", 150, "number of restore file-plan cases")
 	nTrace  = flag.Int("ntrace", 2, "value-level traces per engine and kind")
 	lenTr   = flag.Int("tracelen", 40, "ops per trace")
+	nFetch  = flag.Int("nfetch", 1, "fetch-after-lineage-reset scenarios per engine")
 	engines = flag.String("engines", "pebble,rocksdb,mem", "engines for the traces")
 	k1engs  = flag.String("k1", "pebble", "engines for the K1 probe (comma separated, empty = none)")
 	k1mb    = flag.Int("k1mb", 32, "MB of unflushed data for the K1 probe")
@@ -280,6 +283,14 @@ func generate(r *hx.Rng) []cs {
 			}
 		}
 	}
+	for _, e := range strings.Split(*engines, ",") {
+		if e == "" || e == "mem" {
+			continue
+		}
+		for k := 0; k < *nFetch; k++ {
+			cases = append(cases, cs{id: next(), kind: "E", f: []string{e, fmt.Sprint(r.Pick(4)), fmt.Sprint(r.Pick(4))}})
+		}
+	}
 	for _, e := range strings.Split(*k1engs, ",") {
 		if e != "" && e != "none" {
 			cases = append(cases, cs{id: next(), kind: "K", f: []string{e, fmt.Sprint(*k1mb), "300"}})
@@ -314,7 +325,7 @@ func parseReplay(file string) []cs {
 			case "W":
 				o.share = p[4] == "1"
 				o.cmds = decCmds(p[5])
-			case "B", "R", "Y", "O":
+			case "B", "R", "Y", "O", "F":
 				o.t, _ = strconv.ParseUint(p[4], 16, 64)
 				o.i, _ = strconv.ParseUint(p[5], 16, 64)
 			case "S":
@@ -338,6 +349,10 @@ func main() {
 	}
 	smx.Quiet()
 	if *probe != "" {
+		if strings.HasPrefix(*probe, "fetch:") {
+			probeFetch(strings.TrimPrefix(*probe, "fetch:"))
+			return
+		}
 		probeCheck(*probe)
 		return
 	}
@@ -397,6 +412,15 @@ func main() {
 			}
 			co.Printf("%s\tK\t%d\n", c.id, at)
 			io.Printf("%s\t%d %d\n", c.id, at, got)
+		case "E":
+			r1, _ := strconv.Atoi(c.f[1])
+			r2, _ := strconv.Atoi(c.f[2])
+			out, coll := fetchScenario(c.f[0], r1, r2)
+			co.Printf("%s\tE\t%s\t%s\t%s\n", c.id, c.f[0], c.f[1], c.f[2])
+			io.Printf("%s\t%s\n", c.id, out)
+			if coll != "" {
+				fmt.Fprintf(os.Stderr, "E %s r1=%d r2=%d sst number reused with other content:%s\n", c.f[0], r1, r2, coll)
+			}
 		case "T":
 			runTrace(c.id, c.tr, co, io, sk)
 		}
@@ -405,28 +429,13 @@ func main() {
 
 func runTrace(id string, tr *trace, co, io, sk *hx.Out) {
 	sk.Printf("%s\tTS\t%s\t%d\t%d\n", id, tr.eng, tr.keep[0], tr.keep[1])
-	base, err := os.MkdirTemp("", "verif-ckpt-tr-")
+	pr, err := openPair(tr.eng, tr.keep)
 	if err != nil {
-		io.Printf("%s.0\tmkerr\n", id)
+		io.Printf("%s.0\topenerr %v\n", id, err)
 		return
 	}
-	defer os.RemoveAll(base)
-	var st [2]*store
-	for s := 0; s < 2; s++ {
-		st[s], err = openStore(path.Join(base, fmt.Sprintf("s%d", s)), tr.eng, tr.keep[s])
-		if err != nil {
-			io.Printf("%s.0\topenerr %v\n", id, err)
-			return
-		}
-	}
-	defer func() {
-		for s := 0; s < 2; s++ {
-			if st[s].pending != nil {
-				st[s].backupFinish()
-			}
-			st[s].close()
-		}
-	}()
+	defer pr.close()
+	st := pr.st
 	obs := func(res string) string {
 		d := [2]string{}
 		for s := 0; s < 2; s++ {
@@ -477,6 +486,9 @@ func runTrace(id string, tr *trace, co, io, sk *hx.Out) {
 		case "Y":
 			res = s.copyCkTo(st[1-o.s], o.t, o.i)
 			co.Printf("%s\tTO\tY\t%d\t%x\t%x\n", lid, o.s, o.t, o.i)
+		case "F":
+			res = s.prepare(o.t, o.i)
+			co.Printf("%s\tTO\tF\t%d\t%x\t%x\n", lid, o.s, o.t, o.i)
 		case "S":
 			s.setLatest(o.i)
 			co.Printf("%s\tTO\tS\t%d\t%x\n", lid, o.s, o.i)
